@@ -124,6 +124,21 @@ def main(tier, replay=None):
         "known_findings_reported": known, "nondeterministic_reports": nondet,
         "fidelity_crosscheck_real_binary": fidelity,
     }
+    want_shapes = ["ascii", "utf8", "bad-utf8", "ctrl", "comment", "empty", "blank", "long>110", "long>1000", "long>2040"]
+    have = set(x.split("/")[0].split("+")[0] for x in st.get("line_shapes", []))
+    zero = ["line shape " + x for x in want_shapes if x not in have]
+    for term in ("LF", "CRLF", "none"):
+        if not any(x.endswith("/" + term) for x in st.get("line_shapes", [])):
+            zero.append("terminator " + term)
+    if not any("+nul" in x for x in st.get("line_shapes", [])):
+        zero.append("line with embedded NUL")
+    for k in ("fault_fopen_fired", "fault_read_eintr_fired", "fault_read_eio_fired", "fault_stdout_fired", "short_reads", "exact_echo_checked", "verdicts_checked"):
+        if not st.get(k):
+            zero.append(k)
+    for k in ("full", "byte", "sized"):
+        if not st.get("files_by_chunk_class", {}).get(k):
+            zero.append("chunk class " + k)
+    cov["probes_at_zero"] = zero
     assumptions = ["sampling, not proof", "after an injected read error only verdicts of lines that ended before the fault offset are required exactly (glibc hands a torn line to the tool as a line)",
                    "after an injected stdout error only termination, memory safety and exit status 0 are required",
                    "the verdict oracle is the library itself under default settings on a harness-owned eav_t (history independence is C13's business)",
